@@ -75,10 +75,17 @@ class C02(Prop):
         for df in (11, 24, 27, 31):
             for ca in range(8):
                 b = rand_frame(rng, df); put(b, 5, 3, ca); sel.append(b)
+        self._pairs = []
         for b in sel:
-            ops.append(hexop("F", b))
+            base = len(ops); ops.append(hexop("F", b))
             for k in (1, 4):
-                ops.append(hexop("F", b + bytearray(rng.bits(8 * k).to_bytes(k, "big"))))
+                self._pairs.append((base, len(ops), "the bytes after the frame changed the result")); ops.append(hexop("F", b + bytearray(rng.bits(8 * k).to_bytes(k, "big"))))
+        # the two formats whose structural parse ends before the frame does (DF19: one byte, DF20: eleven): the tail is pulled in afterwards
+        for df in (19, 20):
+            for rep in range(12):
+                b = rand_frame(rng, df); base = len(ops); ops.append(hexop("F", b))
+                for k in (1, 2, 3, 7, 14):
+                    self._pairs.append((base, len(ops), "the bytes after the frame changed the result")); ops.append(hexop("F", b + bytearray(rng.bits(8 * k).to_bytes(k, "big"))))
         # trailing garbage
         n = 300 if tier == "quick" else 3000
         for i in range(n):
@@ -86,9 +93,9 @@ class C02(Prop):
             b = rand_frame(rng, df)
             if df in (17, 18): put(b, 32, 5, rng.below(32))
             if df in (20, 21): put(b, 32, 8, rng.choice([0, 0x10, 0x20, rng.below(256)]))
-            ops.append(hexop("F", b))
+            base = len(ops); ops.append(hexop("F", b))
             k = 1 + rng.below(18)
-            ops.append(hexop("F", b + bytearray(rng.bits(8 * k).to_bytes(k, "big"))))
+            self._pairs.append((base, len(ops), "the bytes after the frame changed the result")); ops.append(hexop("F", b + bytearray(rng.bits(8 * k).to_bytes(k, "big"))))
         # truncated versions of valid frames: every length below L
         for i in range(40 if tier == "quick" else 400):
             df = rng.choice(VALID_DF)
@@ -113,6 +120,7 @@ class C02(Prop):
         return None
     def norm(self, line):
         return line if line.startswith("OK") else "REJECT"
+    def pairs(self, ops): return self._pairs
 
 class C03(Prop):
     id = "C03"; module = "Adsb.Theorems.C03"; design_ref = "5/C03"
